@@ -2,7 +2,7 @@
    ExtrOcamlBasic only: nat, N, positive stay the extracted inductive datatypes.
    Output goes to ocaml/C04/_build/ (git-ignored; the directory is kept by its own .gitignore). *)
 From Coq Require Import NArith List Extraction ExtrOcamlBasic.
-From C04 Require Import Model_C04.
+From C04 Require Import Model_C04 Deep1_C04 Deep2_C04.
 Extraction Language OCaml.
 (* coqc runs with /verif/coq as working directory (Makefile and vlib alike) *)
-Extraction "../ocaml/C04/_build/c04_model.ml" run_report.
+Extraction "../ocaml/C04/_build/c04_model.ml" run_report sem_hyp snapshot_new postfix_code_new hoist_ok_new.
